@@ -98,6 +98,18 @@ type Exec struct {
 	Diverged  bool
 	DivergeAt int
 	Strategy  int // 0 uniform, 1 sticky, 2 starve
+	// Double: in this execution a grant is now and then combined with an environment move (a
+	// cancellation, an error-channel delivery) into ONE controller step: the granted goroutine's
+	// critical section and the environment event then happen before any woken goroutine runs, so a
+	// waiter finds both its wait channel closed and its context cancelled (Go's select picks either).
+	Double bool
+	// Both refinements are opt-in per driver (OptDouble / OptParkUnl, set at the start of Run): a monitor
+	// that takes the logged return of a call as its linearization point is only right when critical
+	// section and return happen in one controller step.
+	OptDouble, OptParkUnl bool
+	// ParkUnl: in this (seeded, not schedule-following) execution verifhook.Unlocked is a park point too
+	ParkUnl bool
+	rng2   *rand.Rand
 	starve    string
 	lastActor string
 	Steps     int
@@ -124,6 +136,11 @@ func Install() {
 		Lock: func(obj any) {
 			if x := current(); x != nil {
 				x.hook("lock", "", obj)
+			}
+		},
+		TryLock: func(obj any) {
+			if x := current(); x != nil {
+				x.hook("trylock", "", obj)
 			}
 		},
 		Unlocked: func(obj any) {
@@ -167,6 +184,10 @@ func NewExec(t *trace.Writer, seed int64) *Exec {
 		root:   gid(),
 	}
 	x.Strategy = int(x.Rng.Intn(3))
+	// a stream of its own, so that the scenario generators draw the same numbers as before
+	x.rng2 = rand.New(rand.NewSource(seed ^ 0x5eed5eed))
+	x.Double = x.rng2.Intn(3) == 0
+	x.ParkUnl = x.rng2.Intn(4) == 0
 	curMu.Lock()
 	cur = x
 	curMu.Unlock()
@@ -213,6 +234,12 @@ func (x *Exec) Self() *Actor {
 }
 
 func (x *Exec) hook(kind, site string, obj any) {
+	// a TryLock site is a lock site for the policies and the depth accounting; only Park.Kind tells
+	// them apart (a driver may grant it while the lock is held: the attempt fails, nothing blocks)
+	try := kind == "trylock"
+	if try {
+		kind = "lock"
+	}
 	g := gid()
 	x.mu.Lock()
 	hint := "anon"
@@ -238,7 +265,19 @@ func (x *Exec) hook(kind, site string, obj any) {
 		if a.depth > 0 {
 			a.depth--
 		}
-		if a.depth > 0 || x.free || x.Policy == nil || !x.Policy(a, kind, site, obj) {
+		if a.depth > 0 || x.free {
+			x.mu.Unlock()
+			return
+		}
+		if x.Policy == nil {
+			// default: the end of a critical section is a park point only in some seeded executions
+			// (finer than the X specs' steps: e.g. a waiter stops between leaving its predicate section
+			// and entering its select, so the select can find several cases ready)
+			if !x.parkUnlActive() {
+				x.mu.Unlock()
+				return
+			}
+		} else if !x.Policy(a, kind, site, obj) {
 			x.mu.Unlock()
 			return
 		}
@@ -261,6 +300,9 @@ func (x *Exec) hook(kind, site string, obj any) {
 		}
 	}
 	p := &Park{Kind: kind, Site: site, Obj: obj, ch: make(chan any, 1), a: a}
+	if try {
+		p.Kind = "trylock"
+	}
 	a.park = p
 	x.mu.Unlock()
 	<-p.ch
@@ -439,6 +481,21 @@ func (x *Exec) Pick(ms []Move) Move {
 				return m
 			}
 		}
+		if i := strings.IndexByte(want, '&'); i > 0 {
+			var m1, m2 *Move
+			for k := range ms {
+				if ms[k].Label == want[:i] {
+					m1 = &ms[k]
+				}
+				if ms[k].Label == want[i+1:] {
+					m2 = &ms[k]
+				}
+			}
+			if m1 != nil && m2 != nil {
+				x.schedPos++
+				return compose(*m1, *m2)
+			}
+		}
 		if opt {
 			x.schedPos++
 			continue
@@ -488,6 +545,31 @@ func (x *Exec) NextWanted() string {
 		return ""
 	}
 	return strings.TrimPrefix(x.Sched[x.schedPos], "~")
+}
+
+// parkUnlActive: see ParkUnl. A recorded label list that starts with "!parkunl" (a replay) asks for it.
+func (x *Exec) parkUnlActive() bool {
+	if x.LogSteps || !x.OptParkUnl {
+		return false
+	}
+	if len(x.Sched) > 0 {
+		return x.Sched[0] == "!parkunl"
+	}
+	return x.ParkUnl
+}
+
+func envLabel(l string) bool {
+	for _, p := range []string{"cancel:", "fire:", "errch", "cancelroot:"} {
+		if strings.HasPrefix(l, p) {
+			return true
+		}
+	}
+	return false
+}
+
+// compose makes one controller step of a grant and an environment move (see Exec.Double).
+func compose(a, b Move) Move {
+	return Move{Label: a.Label + "&" + b.Label, Actor: a.Actor, Do: func() { a.Do(); b.Do() }}
 }
 
 // SchedDone reports whether the whole schedule was followed.
@@ -569,6 +651,12 @@ func (x *Exec) StopClients() []string {
 
 // Loop is the standard controller loop: settle, observe, enumerate moves, pick one, step.
 func (x *Exec) Loop(moves func() []Move, observe func(), max int) {
+	if len(x.Labels) == 0 && x.parkUnlActive() {
+		x.Labels = append(x.Labels, "!parkunl")
+		if len(x.Sched) > 0 && x.schedPos == 0 {
+			x.schedPos = 1
+		}
+	}
 	synctest.Wait()
 	for x.Steps < max {
 		if observe != nil {
@@ -578,7 +666,19 @@ func (x *Exec) Loop(moves func() []Move, observe func(), max int) {
 		if len(ms) == 0 {
 			break
 		}
-		x.Step(x.Pick(ms))
+		m := x.Pick(ms)
+		if x.Double && x.OptDouble && !x.LogSteps && x.NextWanted() == "" && strings.HasPrefix(m.Label, "grant:") && x.rng2.Intn(2) == 0 {
+			var env []Move
+			for _, e := range ms {
+				if envLabel(e.Label) {
+					env = append(env, e)
+				}
+			}
+			if len(env) > 0 {
+				m = compose(m, env[x.rng2.Intn(len(env))])
+			}
+		}
+		x.Step(m)
 	}
 	if observe != nil {
 		observe()
